@@ -376,6 +376,11 @@ REUSE_TEXTS = [
     "m.k.all(x, x in l)", "(s + 'x').size() + l.map(x, x + n)[0]", "[l[0], n].exists(x, x > 1)", "l.map(x, l.filter(y, y >= x).size())", "[n, n + 1].map(x, x * n)", "(l + [n]).exists_one(x, x == n)",
     "n in (l + [7])", "(s + s).contains(s) && (s + 'b').startsWith(s)", "{'a': n, 'b': l}.b.map(x, x + n)", "m.k.map(x, x + n).filter(y, y in l)", "[s, s + 'a'].filter(x, x.endsWith('a'))",
     "l.exists_one(x, x == n) == (size(l.filter(x, x == n)) == 1)", "(l + [n])[size(l)] == n", "[m.k, l].map(x, size(x))", "size(l) > 0 ? l[size(l) - 1] : n",
+    # constructs made of literals only, some of them FAILING (duplicate key, index past the end, missing key): the same program must give
+    # the same outcome at every evaluation, and at every visit within one evaluation (macro bodies)
+    "{'k': 1, 'k': 2}", "size({1: 'x', 2: 'y', 1: 'z'})", "{'k': 1, 'k': 2}.k == 1", "[1, 2, 3][5]", "{'a': 1}.b", "{'a': [1, 2]}.a[2]", "{'a': 1, 'b': 2}", "size({1: 'x', 2: 'y'}) + n",
+    "[1, 2].exists(x, {'k': 1, 'k': 2}.k == x)", "[1, 2, 3].all(x, size({1: 1, 1: 2}) > 0 || x > 5)", "l.map(x, {'a': 1, 'b': 2}.a + x)", "[{'k': 1}, {'k': 1, 'k': 1}].size()",
+    "{'k': 1, 'k': 2}.k == 1 || n > 0", "{1: 1, 1u: 2}", "{true: 1, false: 2, true: 3}.size()",
 ]
 REUSE_ENVS = [
     {"l": ("list", (("int", 1), ("int", 2))), "n": ("int", 1), "m": ("map", ((("string", "k"), ("list", (("int", 1),))),)), "s": ("string", "ab")},
